@@ -10,6 +10,7 @@ Two task kinds:
 """
 
 import itertools
+import hashlib
 import json
 import os
 import shutil
@@ -179,7 +180,7 @@ def _chunk(entry):
 
 
 class St:
-    __slots__ = ("obj", "wit", "logical", "cache", "dead", "canon", "frozen_seen")
+    __slots__ = ("obj", "wit", "logical", "cache", "dead", "canon")
 
 
 def _keyname(k):
@@ -285,7 +286,8 @@ def build(hist):
 
 
 def canon(st):
-    return st.canon
+    # the exact snapshot, kept as a 128-bit digest of its repr so that seen-sets of 10^5..10^6 states stay small
+    return hashlib.blake2b(repr(st.canon).encode(), digest_size=16).digest()
 
 
 def probe(obj, logical, which):
@@ -537,6 +539,7 @@ def tasks(tier):
         for i in range(len(full)):
             out.append(("bfs", "full", d["full"], [i]))
     else:
+        out.append(("bfs", "full", 1, []))
         for i in range(len(full)):
             for j in range(0, len(full), 8):
                 out.append(("bfs", "full", d["full"], [i, list(range(j, min(j + 8, len(full))))]))
